@@ -14,6 +14,8 @@ static void g2def_run(Ctx& c) {
     g.beta_hi = c.thorough() ? 60.0 : 20.0; g.hetero = true;
     g.pclasses = {"generic", "integers", "equal", "atomic", "negU", "ph", "free", "neardeg", "zero", "atomic", "free", "ph"};   // degenerate classes over-represented
     ModelSpec m = gen_model(r, g);
+    const bool cold = (c.k % 8 == 5);       // beta*(level spacing) of several hundred to a few thousand: weights underflow, exp(beta*dE) overflows
+    if (cold) m.beta = r.logu(150, 1500);
     int pmode = (c.k % 4 == 3) ? PM_IGNORE : PM_DEFAULT;
     if (!m.balanced_spins()) pmode = PM_IGNORE;
     Pipeline p; p.build_lattice(m);
@@ -21,10 +23,10 @@ static void g2def_run(Ctx& c) {
     if (ed.herm_defect() > 1e-12 * (1 + ed.hnorm)) { c.skipped = true; return; }
     p.build_states(pmode); p.build_hamiltonian(true); p.build_dm(m.beta); p.build_ops();
     const int N = p.N; const double beta = m.beta;
-    c.model = m.describe(); c.canon = m.canon() + "|" + pm_name(pmode);
+    c.model = m.describe(); c.canon = m.canon() + "|" + pm_name(pmode) + (cold ? "|cold" : "");
     Pipeline::LibBasis lb = p.lib_basis();
     G2Tol gt; gt.prepare(lb.E, beta);
-    c.features.set("partition", pm_name(pmode)).set("N", N).set("pclass", m.pclass).set("near_coincident_poles", gt.near).set("blocks", p.nblocks());
+    c.features.set("cold", cold).set("partition", pm_name(pmode)).set("N", N).set("pclass", m.pclass).set("near_coincident_poles", gt.near).set("blocks", p.nblocks());
 
     // index quadruples
     std::vector<std::array<int, 4>> quads;
